@@ -90,6 +90,7 @@ impl Sc {
             env: Some(self.env()),
             real: Some(RealKind::Program),
             note: "c06".into(),
+            decoy_in_cwd: false,
         }
     }
 }
